@@ -1,4 +1,7 @@
-(* C08 — instantiation used by the correspondence check. *)
+(* C08 — instantiation used by the correspondence check.
+   report: kind 0 = model differs from the implementation (detail 5: the harness' "clause 5 judged this
+   case" flag differs from the specification's); kinds 1-4 = round trip / accepts-iff / rejected-not-stored /
+   wire-setter (inside in_domain); kind 5 = iso_spellings (c_iso_in, on every from-wire case). *)
 From Coq Require Import List Bool NArith ZArith.
 From AUC Require Export Prelude.PyStr C08.TypesDef C08.Model C08.Spec Gen.Types Gen.DateMatchers.
 Import ListNotations.
@@ -7,7 +10,7 @@ Local Open Scope N_scope.
 Inductive vop := VSet (v : pyval) | VSetWire (s : pystr).
 Inductive input :=
 | IOut (ty : pystr) (v : pyval)
-| IIn (ty : pystr) (s : pystr)
+| IIn (ty : pystr) (s : pystr) (judged : bool)   (* judged: the harness' count of "clause 5 applies" (cross-checked) *)
 | IRound (ty : pystr) (v : pyval)
 | IVar (ty : pystr) (strict : bool) (allowed : list pystr) (has_range : bool)
        (mn mx : option pystr) (ops : list vop).
@@ -112,7 +115,7 @@ Section WithOracle.
                    | Some row => OOut (m_out row v)
                    | None => OOut (Raise OtherError)
                    end
-    | IIn ty s => match find_row ty type_table with
+    | IIn ty s _ => match find_row ty type_table with
                   | Some row => OIn (m_in row s)
                   | None => OIn (Raise OtherError)
                   end
@@ -197,13 +200,36 @@ Section WithOracle.
     end.
 End WithOracle.
 
+(* clause 5: a canonical ISO 8601 spelling (Spec.spec_iso_in, a grammar and denotation that do not
+   look at the generated matcher table nor at the model's parse_date_time) must be read as exactly the
+   value it denotes: not an exception, not another instant, offset or type.  Its own domain is
+   "spec_iso_in says Some"; it is evaluated on every from-wire case, whatever in_domain says. *)
+Definition c_iso_in (i : input) (ob : observation) : bool :=
+  match i with
+  | IIn ty s _ =>
+      match spec_iso_in ty s with
+      | Some v => match ob with OIn (Ok v') => val_eqb v v' | _ => false end
+      | None => true
+      end
+  | _ => true
+  end.
+(* the harness reports how many cases clause 5 judged; its count must be the specification's *)
+Definition iso_judged_ok (i : input) : bool :=
+  match i with
+  | IIn ty s judged => Bool.eqb judged (match spec_iso_in ty s with Some _ => true | None => false end)
+  | _ => true
+  end.
+
 Definition flag (b : bool) (base k : N) : list (N * N * N) := if b then [] else [(base, k, 0)].
+Definition flagd (b : bool) (base k d : N) : list (N * N * N) := if b then [] else [(base, k, d)].
 
 Fixpoint report (base : N) (cases : list (oracle * input * observation)) : list (N * N * N) :=
   match cases with
   | [] => []
   | (o, i, ob) :: r =>
       flag (obs_eqb (model_run o i) ob) base 0 ++
+      flagd (iso_judged_ok i) base 0 5 ++
+      flag (c_iso_in i ob) base 5 ++
       (if in_domain i then
          flag (c_roundtrip i ob) base 1 ++
          (let '(a, b, c) := c_var o i ob in flag a base 2 ++ flag b base 3 ++ flag c base 4)
@@ -212,4 +238,6 @@ Fixpoint report (base : N) (cases : list (oracle * input * observation)) : list 
   end.
 
 Definition replay (c : oracle * input * observation) :=
-  let '(o, i, ob) := c in (model_run o i, in_domain i, c_roundtrip i ob, c_var o i ob).
+  let '(o, i, ob) := c in
+  (model_run o i, in_domain i, c_roundtrip i ob, c_var o i ob,
+   match i with IIn ty s _ => spec_iso_in ty s | _ => None end, c_iso_in i ob).
